@@ -177,6 +177,19 @@ class DiffXReader(object):
                         % section_id,
                         linenum=linenum)
 
+                if not isinstance(length, int) or length < 0:
+                    raise DiffXParseError(
+                        'Expected the length option for section "%s" to be '
+                        'a non-negative number'
+                        % section_id,
+                        linenum=linenum)
+
+                if encoding is not None and not isinstance(encoding, str):
+                    raise DiffXParseError(
+                        'Unsupported encoding "%s" for section "%s"'
+                        % (encoding, section_id),
+                        linenum=linenum)
+
                 if section_id in PREAMBLE_SECTIONS:
                     # This is a preamble section.
                     #
@@ -325,7 +338,11 @@ class DiffXReader(object):
 
                 self._file_newlines = b'\n'
 
-        assert header.endswith(self._file_newlines)
+        if not header.endswith(self._file_newlines):
+            raise DiffXParseError(
+                'Unexpected or improperly formatted header: %r' % header,
+                linenum=linenum)
+
         header = header[:-len(self._file_newlines)]
 
         m = self._HEADER_RE.match(header)
@@ -460,24 +477,45 @@ class DiffXReader(object):
                 validate.
         """
         fp = self._fp
-        content = fp.read(length)
+
+        try:
+            content = fp.read(length)
+        except OverflowError:
+            raise DiffXParseError(
+                'The length option for the section is too large',
+                linenum=self._linenum)
+
+        if not content:
+            raise DiffXParseError(
+                'Expected a newline after content',
+                linenum=self._linenum)
+
+        if indent is not None and (not isinstance(indent, int) or indent < 0):
+            raise DiffXParseError(
+                'Expected the indent option to be a non-negative number',
+                linenum=self._linenum)
 
         # First, determine the line endings that we're going to be working
         # with.
-        if line_endings:
-            # An explicit line ending type was specified. Validate it and
-            # get the newline characters, encoding it for the byte string.
-            try:
+        try:
+            if line_endings:
+                # An explicit line ending type was specified. Validate it and
+                # get the newline characters, encoding it for the byte string.
                 newline = get_newline_for_type(line_endings,
                                                encoding=encoding)
-            except ValueError as e:
-                raise DiffXParseError(str(e),
-                                      linenum=self._linenum)
-        else:
-            # An explicit line ending type was not specified. Try to determine
-            # the appropriate line ending based on the first line of content.
-            line_endings, newline = guess_line_endings(content,
-                                                       encoding=encoding)
+            else:
+                # An explicit line ending type was not specified. Try to
+                # determine the appropriate line ending based on the first
+                # line of content.
+                line_endings, newline = guess_line_endings(content,
+                                                           encoding=encoding)
+        except LookupError:
+            raise DiffXParseError(
+                'Unsupported encoding "%s" for the section' % encoding,
+                linenum=self._linenum)
+        except ValueError as e:
+            raise DiffXParseError(str(e),
+                                  linenum=self._linenum)
 
         lines = split_lines(data=content,
                             newline=newline,
@@ -489,7 +527,7 @@ class DiffXReader(object):
             # or due to some error the indentation on some line may be
             # wrong. Be careful to strip only the spaces, up to the specified
             # indentation level.
-            indent_re = re.compile(br'^ {1,%d}' % indent)
+            indent_re = re.compile(br'^ {1,%d}' % min(indent, len(content)))
             content = b''.join(
                 indent_re.sub(b'', _line)
                 for _line in lines
@@ -498,8 +536,13 @@ class DiffXReader(object):
         if encoding and not keep_bytes:
             # We know what this content was encoded with. We can now decode
             # it.
-            content = content.decode(encoding)
-            newline = newline.decode(encoding)
+            try:
+                content = content.decode(encoding)
+                newline = newline.decode(encoding)
+            except UnicodeError:
+                raise DiffXParseError(
+                    'The content could not be decoded as "%s"' % encoding,
+                    linenum=self._linenum)
 
         # Validate that the content ends in a newline. This is to ensure that
         # the file was written according to spec.
